@@ -282,6 +282,8 @@ def _run_symbolic(fc, res, tier, exclusions):
                            int_mode=fc.int_mode)
             if fc.force_symbolic:
                 L.ns["np"].force_symbolic = True
+            if getattr(fc, "nmode", False):
+                L.ns["np"].nmode = True
             if getattr(fc, "scalar_ctors", False):
                 L.ns["np"].enable_scalar_ctors()
             holder["L"] = L
